@@ -150,3 +150,13 @@ Theorem C04_decide_unreachable_needs_falsified_clause : forall U act_ge pa db,
   exists c p r cands, In c db /\ ck c = KRequires p r cands /\ lit_istrue pa (p, true) = true /\
                       Forall (cfalse pa) (concat cands).
 Proof. exact decide_panic. Qed.
+
+(* from a state in which no clause is falsified -- checked at every call of decide
+   in every hook log by the extracted prop_complete -- the unreachable!() cannot
+   be reached *)
+From Resolvo Require Import Cdcl.PropComplete.
+
+Theorem C04_complete_no_panic : forall U act_ge db pa,
+  (forall c, In c db -> req_wf U c = true) -> prop_complete db pa = true ->
+  decide U act_ge db pa <> None.
+Proof. exact complete_no_panic. Qed.
